@@ -208,6 +208,12 @@ Theorem C18_owned_never_killed_by_answer : forall w t e,
 Proof. exact owned_never_killed_by_answer. Qed.
 Print Assumptions C18_owned_never_killed_by_answer.
 
+(* ... nor by a mere reconnection to the master with all its reconciliation answers processed *)
+Theorem C18_owned_never_killed_by_reconnect : forall w t e,
+  Own w t e -> ~ In (CKill t) (snd (hstep w OReconnect)).
+Proof. exact owned_never_killed_by_reconnect. Qed.
+Print Assumptions C18_owned_never_killed_by_reconnect.
+
 (* What makes a roster task ACTIVE or INACTIVE (regenerated from updateTaskStatus): TASK_RUNNING
    activates, TASK_LOST and TASK_FAILED deactivate, no state in which the master has a task
    alive deactivates, and TASK_RUNNING is the only live state that activates.  So INACTIVE roster
